@@ -26,8 +26,8 @@ RULE_TEXT = (
     "excluded and included) are instantiated twice: with a collision-free renaming (equal-length distinct tokens) and "
     "with an adversarial one drawn from {a, ab, a_b, aa, b, ba, abc, a_, aab, b_a, ...}. Verdict, parsed message lines "
     "incl. '(layer X)'/'(no layer)' tags, label map, module and import sets must be identical after mapping names back. "
-    "Exhaustive part: abstract tree root{X{Z},Y,W}, every import relation with <= 2 edges, every unrelated 1x1 rule and 3 "
-    "layer partitions x all 6 assignments of (a, ab, a_b) to (X, Y, W). Random part: Hypothesis. Non-trivial: under the "
+    "Exhaustive part: abstract tree root{X{Q,Z},Y,W}, every import relation with <= 2 edges, every unrelated 1x1 rule and 5 "
+    "layer partitions (two of them listing a package together with its own sub package) x all 6 assignments of (a, ab, a_b) to (X, Y, W). Random part: Hypothesis. Non-trivial: under the "
     "adversarial renaming some sibling is a string prefix of another sibling and one of them occurs in the rule, layer "
     "definition, alias map or module_path."
 )
@@ -200,21 +200,25 @@ def check_case(spec: dict) -> dict:
 
 # ------------------------------------------------------------------------------ exhaustive
 
-ABS_TREE = ["R", "R.X", "R.X.Z", "R.Y", "R.W"]
+ABS_TREE = ["R", "R.X", "R.X.Q", "R.X.Z", "R.Y", "R.W"]
 LAYER_CONFIGS = [
     [{"name": "L1", "kind": "names", "modules": ["R.X"]}, {"name": "L2", "kind": "names", "modules": ["R.Y"]}],
     [{"name": "L1", "kind": "names", "modules": ["R.X", "R.W"]}, {"name": "L2", "kind": "names", "modules": ["R.Y"]}],
     [{"name": "L1", "kind": "names", "modules": ["R.X.Z"]}, {"name": "L2", "kind": "names", "modules": ["R.Y"]}, {"name": "L3", "kind": "names", "modules": ["R.W"]}],
+    # a layer may list a package together with one of its own sub packages
+    [{"name": "L1", "kind": "names", "modules": ["R.X", "R.X.Z"]}, {"name": "L2", "kind": "names", "modules": ["R.Y"]}],
+    [{"name": "L1", "kind": "names", "modules": ["R.X", "R.X.Q"]}, {"name": "L2", "kind": "names", "modules": ["R.W", "R.Y"]}],
 ]
 
 
 def exh_shard(arg, stt, deadline) -> None:
-    shard, nshards = arg
+    shard, nshards, n_perms = arg
     from . import c05
     cand = M.candidate_edges(ABS_TREE, allow_root_target=False, root="R")
     rules = [r for r in RS.enum_rules(ABS_TREE, 1, 1, root="R")]
-    rho1 = {"R": "r", "X": "k1", "Z": "k2", "Y": "k3", "W": "k4"}
+    rho1 = {"R": "r", "X": "k1", "Z": "k2", "Y": "k3", "W": "k4", "Q": "k5"}
     perms = list(permutations(["a", "ab", "a_b"]))
+    perms = [perms[0], perms[3], perms[4]] if n_perms == 3 else perms  # quick: the three rotations
     i = 0
     for imports in RS.graphs_of(cand, shard, nshards, 2):
         if RS.timed_out(deadline, i, 2):
@@ -222,7 +226,7 @@ def exh_shard(arg, stt, deadline) -> None:
             return
         i += 1
         for px, py, pw in perms:
-            rho2 = {"R": "r", "X": px, "Z": "aa", "Y": py, "W": pw}
+            rho2 = {"R": "r", "X": px, "Z": "aa", "Y": py, "W": pw, "Q": "aab"}
             for rule in rules:
                 spec = {"type": "rule", "tree": ABS_TREE, "imports": imports, "rule": rule, "rho1": rho1, "rho2": rho2}
                 res = check_case(spec)
@@ -286,6 +290,12 @@ def cases(draw):
             names = names[: len(TOKENS)]
         tree2 = [ren(m, tok) for m in inner["tree"]]
         layers = [{"name": ld["name"], "kind": "names", "modules": [ren(m, tok) for m in ld["modules"]], "as_str": False} for ld in inner["layers"]]
+        if draw(st.booleans()):
+            # nested member: a layer lists one of its modules together with a descendant of it
+            li = draw(st.integers(0, len(layers) - 1))
+            below = [m for m in tree2 if any(M.is_strict_desc(m, x) for x in layers[li]["modules"])]
+            if below:
+                layers[li]["modules"] = layers[li]["modules"] + [draw(st.sampled_from(below))]
         imports = [[ren(u, tok), ren(v, tok)] for u, v in inner["imports"]]
         r1, r2 = draw(renamings([tok[n] for n in names]))
         return {"type": "layer", "tree": tree2, "imports": imports, "layers": layers, "rule": inner["rule"], "rho1": r1, "rho2": r2}
@@ -300,6 +310,7 @@ def strategy(tier):
 
 def run(ctx) -> None:
     nsh = 64
-    ctx.exhaustive("abstract-T4-renamings", MOD, "exh_shard", [(i, nsh) for i in range(nsh)],
+    n_perms = 3 if ctx.tier == "quick" else 6
+    ctx.exhaustive("abstract-T4-renamings", MOD, "exh_shard", [(i, nsh, n_perms) for i in range(nsh)],
                    "abstract tree R{X{Z},Y,W}: all import relations with <= 2 edges x all unrelated 1x1 rules and 3 layer partitions with all layer rules x 6 assignments of (a, ab, a_b) to (X, Y, W)")
     ctx.random("random-cases", MOD, "strategy", "check_case", 6000 if ctx.tier == "quick" else 120000)
